@@ -1,0 +1,164 @@
+//! Verification hooks for deterministic simulation.
+//!
+//! Compiled only with `--cfg d_engine_verif`; absent from normal builds.
+//! Re-exports crate-private building blocks and constructors so that a simulator
+//! can wire a node exactly as `NodeBuilder::build()` does, but with its own
+//! `Transport` and without OS threads or sockets.
+
+use std::sync::Arc;
+use std::sync::atomic::AtomicBool;
+use std::time::Duration;
+
+use d_engine_core::ClientCmd;
+use d_engine_core::InboundEvent;
+use d_engine_core::RaftNodeConfig;
+use d_engine_core::ReadLease;
+use d_engine_core::StateMachine;
+use d_engine_core::TypeConfig;
+use d_engine_core::alias::MOF;
+use d_engine_proto::server::cluster::NodeMeta;
+use tokio::sync::Mutex;
+use tokio::sync::mpsc;
+use tokio::sync::watch;
+
+pub use crate::api::VerifEmbeddedClient as EmbeddedClient;
+pub use crate::membership::MembershipSnapshot;
+use crate::membership::RaftMembership;
+
+/// The crate-private `RaftMembership<T>`.
+pub type Membership<T> = RaftMembership<T>;
+use crate::Node;
+use crate::api::StandaloneReadHandle;
+use crate::api::VerifEmbeddedReadHandle;
+use crate::node::LeaderNotifier;
+
+/// `RaftMembership::new` (crate-private) for any `TypeConfig`.
+pub fn new_membership<T: TypeConfig>(
+    node_id: u32,
+    initial_nodes: Vec<NodeMeta>,
+    config: RaftNodeConfig,
+) -> (RaftMembership<T>, mpsc::Receiver<u32>) {
+    RaftMembership::new(node_id, initial_nodes, config)
+}
+
+/// `RaftMembership::is_zombie_valid` (crate-private).
+pub fn membership_is_zombie_valid<T: TypeConfig>(
+    m: &RaftMembership<T>,
+    node_id: u32,
+) -> bool {
+    m.is_zombie_valid(node_id)
+}
+
+/// `RaftMembership::on_peer_stream_failed` (crate-private).
+pub async fn membership_on_peer_stream_failed<T: TypeConfig>(
+    m: &RaftMembership<T>,
+    node_id: u32,
+) {
+    m.on_peer_stream_failed(node_id).await
+}
+
+/// `RaftMembership::on_peer_stream_success` (crate-private).
+pub async fn membership_on_peer_stream_success<T: TypeConfig>(
+    m: &RaftMembership<T>,
+    node_id: u32,
+) {
+    m.on_peer_stream_success(node_id).await
+}
+
+/// Everything `NodeBuilder::build()` puts into a [`Node`], minus thread/task handles
+/// that the simulator owns itself.
+pub struct NodeParts<T: TypeConfig> {
+    pub node_id: u32,
+    pub raft_core: d_engine_core::Raft<T>,
+    pub membership: Arc<MOF<T>>,
+    pub event_tx: mpsc::Sender<InboundEvent>,
+    pub cmd_tx: mpsc::Sender<ClientCmd>,
+    pub membership_rx: watch::Receiver<MembershipSnapshot>,
+    pub node_config: Arc<RaftNodeConfig>,
+    #[cfg(feature = "watch")]
+    pub watch_registry: Option<Arc<d_engine_core::watch::WatchRegistry>>,
+    pub shutdown_signal: watch::Receiver<()>,
+    pub read_lease: Arc<ReadLease>,
+    pub read_tx: Option<ReadTx>,
+}
+
+/// Opaque handle to the crate-private ReadActor channel.
+pub struct ReadTx(pub(crate) mpsc::Sender<crate::read_actor::ReadCmd>);
+
+/// Build a [`Node`] from parts. The leader notifier created here is registered with
+/// `raft_core`, as in `NodeBuilder::build()`.
+pub fn new_node<T: TypeConfig>(mut parts: NodeParts<T>) -> Arc<Node<T>> {
+    let leader_notifier = LeaderNotifier::new();
+    parts.raft_core.register_leader_change_listener(leader_notifier.sender());
+    let (rpc_ready_tx, _rpc_ready_rx) = watch::channel(false);
+    let read_handle = StandaloneReadHandle::new(parts.read_tx.map(|t| t.0), parts.cmd_tx.clone());
+    Arc::new(Node::<T> {
+        node_id: parts.node_id,
+        raft_core: Arc::new(Mutex::new(parts.raft_core)),
+        membership: parts.membership,
+        event_tx: parts.event_tx,
+        read_handle,
+        cmd_tx: parts.cmd_tx,
+        ready: AtomicBool::new(false),
+        rpc_ready_tx,
+        leader_notifier,
+        membership_rx: parts.membership_rx,
+        node_config: parts.node_config,
+        #[cfg(feature = "watch")]
+        watch_registry: parts.watch_registry,
+        #[cfg(feature = "watch")]
+        _watch_dispatcher_handle: None,
+        sm_worker_handle: std::sync::Mutex::new(None),
+        read_actor_handle: std::sync::Mutex::new(None),
+        _commit_handler_handle: None,
+        _lease_cleanup_handle: None,
+        shutdown_signal: parts.shutdown_signal,
+        read_lease: parts.read_lease,
+    })
+}
+
+/// `Node::set_rpc_ready` (crate-private).
+pub fn node_set_rpc_ready<T: TypeConfig>(
+    node: &Node<T>,
+    ready: bool,
+) {
+    node.set_rpc_ready(ready)
+}
+
+/// Lock the Raft core of `node` (as `Node::run` does) — lets the simulator drive
+/// `join_cluster()` / `run()` itself and skip the socket-based readiness probes.
+pub fn node_raft_core<T: TypeConfig>(node: &Node<T>) -> Arc<Mutex<d_engine_core::Raft<T>>> {
+    Arc::clone(&node.raft_core)
+}
+
+/// Spawn the crate-private ReadActor on the current runtime.
+pub fn spawn_read_actor<SM: StateMachine>(
+    capacity: usize,
+    lease: Arc<ReadLease>,
+    sm: Arc<SM>,
+    max_drain: usize,
+) -> (ReadTx, tokio::task::JoinHandle<()>) {
+    let (read_tx, read_rx) = mpsc::channel(capacity);
+    let handle = tokio::spawn(crate::read_actor::run_read_actor(read_rx, lease, sm, max_drain));
+    (ReadTx(read_tx), handle)
+}
+
+/// Build an [`EmbeddedClient`] exactly as `EmbeddedEngine::client()` does.
+pub fn new_embedded_client<T: TypeConfig>(
+    event_tx: mpsc::Sender<InboundEvent>,
+    sm: Arc<T::SM>,
+    lease: Arc<ReadLease>,
+    cmd_tx: mpsc::Sender<ClientCmd>,
+    client_id: u32,
+    timeout: Duration,
+    #[cfg(feature = "watch")] watch_registry: Option<Arc<d_engine_core::watch::WatchRegistry>>,
+) -> EmbeddedClient<T> {
+    let read_handle = VerifEmbeddedReadHandle::<T>::new(sm, lease, cmd_tx);
+    let client = EmbeddedClient::<T>::new_internal(event_tx, read_handle, client_id, timeout);
+    #[cfg(feature = "watch")]
+    let client = match watch_registry {
+        Some(r) => client.with_watch_registry(r),
+        None => client,
+    };
+    client
+}
